@@ -576,6 +576,97 @@ func scenarios(cfg *mc.Config, emit func(mc.Scenario)) {
 			}
 		}
 	}})
+	// two Dials of one process, interleaved at every statement of the handshake
+	// and packet functions: connections share no state.  Both server responses
+	// are on the wire before either client parses (a barrier in front of the
+	// reference servers' first write), so one preemption overlaps two calls of
+	// the same function.
+	emit(mc.Scenario{Name: "two-dials-stmt", Bound: 1, Weight: 300, Run: func(c *mc.Ctx) {
+		dir := freshDir("two")
+		rnd.Install(rnd.New(seed, "c15-real-two"))
+		cf, err := factory(dir)
+		if err != nil {
+			fail(c, "startup", "startup/factory", "%v", err)
+			return
+		}
+		type dl struct {
+			err   error
+			echo  []byte
+			sgot  []byte
+			sdone bool
+			done  bool
+		}
+		ds := []*dl{{}, {}}
+		arrived := 0
+		res := sched.Run(c, sched.Options{PreemptKinds: []string{"stmt"}, NoEarlyTimers: true, Start: start, MaxSteps: 3_000_000}, func() {
+			s := sched.Cur()
+			for i := range ds {
+				i := i
+				d := ds[i]
+				cw, sw := wire.Pipe(fmt.Sprintf("client%d", i), fmt.Sprintf("server%d", i))
+				s.Spawn(fmt.Sprintf("ref-server%d", i), func() {
+					defer func() { d.sdone = true }()
+					bc := &barrierConn{Conn: sw, before: func() {
+						arrived++
+						s.Point("both-requests", func() bool { return arrived >= len(ds) })
+					}}
+					rs, err := ref.SSServe(bc, ref.SSServerOpts{KB: kB, Priv: rnd.New(seed, fmt.Sprint("c15-two-priv-", i)).Bytes(192), PadLen: 5 + i, Hour: hour(), Separate: true}, rnd.New(seed, fmt.Sprint("c15-two-srv-", i)))
+					if err != nil {
+						d.err = fmt.Errorf("reference server: %w", err)
+						sw.Close()
+						return
+					}
+					if err := rs.RecvUntil(10); err == nil {
+						d.sgot = append([]byte{}, rs.Payload...)
+						rs.Send([]byte(fmt.Sprintf("pong%d", i)), 3)
+					}
+					for {
+						if _, err := rs.RecvOnce(); err != nil {
+							break
+						}
+					}
+					sw.Close()
+				})
+				s.Spawn(fmt.Sprintf("dialer%d", i), func() {
+					defer func() { d.done = true }()
+					conn, err := dial(cf, clientArgs(kB), cw)
+					if err != nil {
+						d.err = fmt.Errorf("Dial: %w", err)
+						cw.Close()
+						return
+					}
+					if _, err := conn.Write([]byte(fmt.Sprintf("ping-%04d!", i))); err != nil {
+						d.err = fmt.Errorf("Write: %w", err)
+					}
+					buf := make([]byte, 8)
+					for len(d.echo) < 5 && d.err == nil {
+						n, err := conn.Read(buf)
+						d.echo = append(d.echo, buf[:n]...)
+						if err != nil {
+							d.err = fmt.Errorf("Read: %w", err)
+						}
+					}
+					conn.Close()
+				})
+			}
+			s.Point("join", func() bool { return ds[0].done && ds[1].done && ds[0].sdone && ds[1].sdone })
+		})
+		if len(res.Panics) > 0 {
+			fail(c, "no-panic", "panic/two-dials", "%s", res.Panics[0])
+			return
+		}
+		for i, d := range ds {
+			if d.err != nil {
+				fail(c, "handshake", "two-dials/error", "connection %d: %v (quiescent=%v): connections influence each other", i, d.err, res.Quiescent)
+				return
+			}
+			if string(d.echo) != fmt.Sprintf("pong%d", i) || string(d.sgot) != fmt.Sprintf("ping-%04d!", i) {
+				fail(c, "stream", "two-dials/stream", "connection %d: client read %q, server read %q", i, d.echo, d.sgot)
+				return
+			}
+		}
+		c.Observe("ok", 2)
+	}})
 	// (5) histories
 	depth := 4
 	if thorough {
@@ -584,6 +675,21 @@ func scenarios(cfg *mc.Config, emit func(mc.Scenario)) {
 	for d := 1; d <= depth; d++ {
 		emit(historyScenario(d, seed))
 	}
+}
+
+// barrierConn runs `before` in front of the first Write.
+type barrierConn struct {
+	net.Conn
+	before func()
+	done   bool
+}
+
+func (b *barrierConn) Write(p []byte) (int, error) {
+	if !b.done {
+		b.done = true
+		b.before()
+	}
+	return b.Conn.Write(p)
 }
 
 // ---- histories -------------------------------------------------------------------------
